@@ -148,6 +148,17 @@ def intOf (parse : List Char → Option Int) : Val → Except String Int
   | .dec _ => .error "TypeError"
   | .other _ => .error "TypeError"
 
+/-- `bound is not None and i < bound` -/
+def ltOpt (i : Int) (bound : Option Int) : Bool :=
+  match bound with
+  | some m => decide (i < m)
+  | Option.none => false
+/-- `bound is not None and i > bound` -/
+def gtOpt (i : Int) (bound : Option Int) : Bool :=
+  match bound with
+  | some m => decide (i > m)
+  | Option.none => false
+
 /-- what `IntConverter.validate` returns: `val` itself when it is an int (a bool stays a bool), else the converted int -/
 def intResult (v : Val) (i : Int) : Val :=
   match v with
@@ -165,8 +176,8 @@ def intValidate (parse : List Char → Option Int) (c : IntConv) (v : Val) : Res
   match intOf parse v with
   | .error e => .error e
   | .ok i =>
-    if (match c.minVal with | some m => decide (i < m) | Option.none => false) then .error "ValueError" else
-    if (match c.maxVal with | some m => decide (i > m) | Option.none => false) then .error "ValueError" else
+    if ltOpt i c.minVal then .error "ValueError" else
+    if gtOpt i c.maxVal then .error "ValueError" else
     .ok (intResult v i)
 
 /-! ### RealConverter / DecimalConverter -/
@@ -176,29 +187,50 @@ structure NumConv where
   maxVal : Option Num
   deriving Repr, DecidableEq
 
+/-- `bound is not None and x < bound` (float comparison) -/
+def numLtOpt (x : Num) (bound : Option Num) : Bool :=
+  match bound with
+  | some m => x.lt m
+  | Option.none => false
+/-- `bound is not None and x > bound` -/
+def numGtOpt (x : Num) (bound : Option Num) : Bool :=
+  match bound with
+  | some m => m.lt x
+  | Option.none => false
+
 /-- `RealConverter.validate`; `toFloat` is Python's `float(val)` (error = class name of what it raises) -/
 def realValidate (toFloat : Val → Except String Num) (c : NumConv) (v : Val) : Res :=
   match toFloat v with
   | .error e => .error (if e = "ValueError" then "TypeError" else e)   -- except ValueError: throw(TypeError)
   | .ok x =>
-    if (match c.minVal with | some m => x.lt m | Option.none => false) then .error "ValueError" else
-    if (match c.maxVal with | some m => m.lt x | Option.none => false) then .error "ValueError" else
+    if numLtOpt x c.minVal then .error "ValueError" else
+    if numGtOpt x c.maxVal then .error "ValueError" else
     .ok (.flt x)
 
 /-- `Decimal.__lt__`: an ordering comparison with NaN signals InvalidOperation (trapped in the default context) -/
 def decLt (a b : Num) : Except String Bool :=
   if a.isNan || b.isNan then .error "InvalidOperation" else .ok (a.lt b)
 
+/-- `bound is not None and x < bound` for Decimals -/
+def decLtOpt (x : Num) (bound : Option Num) : Except String Bool :=
+  match bound with
+  | some m => decLt x m
+  | Option.none => .ok false
+def decGtOpt (x : Num) (bound : Option Num) : Except String Bool :=
+  match bound with
+  | some m => decLt m x
+  | Option.none => .ok false
+
 /-- `DecimalConverter.validate`; `toDec` is `Decimal(val)` incl. the float → str/repr step -/
 def decValidate (toDec : Val → Except String Num) (c : NumConv) (v : Val) : Res :=
   match toDec v with
   | .error e => .error (if e = "InvalidOperation" then "TypeError" else e)
   | .ok x =>
-    match (match c.minVal with | some m => decLt x m | Option.none => .ok false) with
+    match decLtOpt x c.minVal with
     | .error e => .error e
     | .ok true => .error "ValueError"
     | .ok false =>
-      match (match c.maxVal with | some m => decLt m x | Option.none => .ok false) with
+      match decGtOpt x c.maxVal with
       | .error e => .error e
       | .ok true => .error "ValueError"
       | .ok false => .ok (.dec x)
@@ -229,13 +261,19 @@ def strInit (isLong : Bool) (maxLen : Option Int) (dfltLen : Option Int) (autost
     | Option.none => .ok { maxLen := dfltLen, autostrip := autostrip }
     | some m => .ok { maxLen := some m, autostrip := autostrip }
 
+/-- `max_len and val_len > max_len` (a max_len of 0 or None is falsy) -/
+def tooLong (maxLen : Option Int) (t : List Char) : Bool :=
+  match maxLen with
+  | some m => m != 0 && decide ((t.length : Int) > m)
+  | Option.none => false
+
 /-- `StrConverter.validate` -/
 def strValidate (c : StrConv) (v : Val) : Res :=
   match v with
   | .str s =>
     let t := if c.autostrip then strip s else s
     -- if max_len and val_len > max_len: throw(ValueError)
-    if (match c.maxLen with | some m => m != 0 && decide ((t.length : Int) > m) | Option.none => false) then .error "ValueError"
+    if tooLong c.maxLen t then .error "ValueError"
     else .ok (.str t)
   | .none => .error "TypeError"
   | .dflt => .error "TypeError"
